@@ -19,6 +19,7 @@ import (
 	"strings"
 
 	"github.com/yaricom/goNEAT/v4/neat"
+	"github.com/yaricom/goNEAT/v4/neat/vmap"
 )
 
 type checkFn func(c *Ctx)
@@ -50,6 +51,10 @@ func main() {
 	debug.SetGCPercent(400)
 	if len(os.Args) < 2 {
 		usage()
+	}
+	if os.Args[1] != "C16RACEPASS" {
+		// iteration order of every map the instrumenter could identify is the harness's (C17 varies it)
+		vmap.SetOrder(vmap.Ascending)
 	}
 	if os.Args[1] == "worker" {
 		if len(os.Args) != 7 {
